@@ -74,6 +74,8 @@ def ob_clip(g0: bool, g1: bool, g2: bool, g3: bool, a00: float, a01: float, a10:
     pred_geo = [True if g else False for g in (g2, g3)][:n_pred]
     A = [[a00, a01], [a10, a11]]  # affinity[prediction][annotation]
     P = [[p00, p01], [p10, p11]]
+    if not h.P("stub_run_metrics", True):
+        P = [[0.6, 0.3], [0.2, 0.7]]  # concrete scores: the whole pipeline incl. run-level metrics runs
     rec = data.Recording(uuid=h.U(1), path="/d/a.wav", duration=10.0, channels=1, samplerate=8000)
     clip = data.Clip(uuid=h.U(2), recording=rec, start_time=0.0, end_time=10.0)
     geoms = {}
@@ -109,7 +111,12 @@ def ob_clip(g0: bool, g1: bool, g2: bool, g3: bool, a00: float, a01: float, a10:
     if h.known("C08-no-labelled-item-map-raises", no_labelled):
         return True
     saved = M.compute_affinity
+    saved_metrics = SED.compute_overall_metrics
     M.compute_affinity = affinity
+    if h.P("stub_run_metrics", True):
+        # the run-level metric VALUES are C09's subject; computing them on symbolic scores only multiplies
+        # paths.  (ob_clip with stub_run_metrics=False and concrete scores keeps the full pipeline in scope.)
+        SED.compute_overall_metrics = lambda true_classes, scores: []
     try:
         ev = SED.sound_event_detection([cp], [ca], [_tag(c) for c in VOCAB])
     except ValueError as e:
@@ -118,6 +125,7 @@ def ob_clip(g0: bool, g1: bool, g2: bool, g3: bool, a00: float, a01: float, a10:
         return h.fail("evaluation of a well-formed input raised: IndexError")
     finally:
         M.compute_affinity = saved
+        SED.compute_overall_metrics = saved_metrics
     if len(ev.clip_evaluations) != 1:
         return h.fail("clip present in both inputs is not evaluated exactly once")
     ce = ev.clip_evaluations[0]
@@ -209,8 +217,13 @@ def plan():
                 continue
             big = n_ann == 2 and n_pred == 2
             tw = ("unpaired", "nogeo") if min(n_ann, n_pred) == 0 else ("paired", "unpaired", "nogeo")
-            obs.append(Ob("clip-a%dp%d" % (n_ann, n_pred), ob_clip, "real", 6000 if big else 1800,
+            big = n_ann + n_pred >= 3
+            obs.append(Ob("clip-a%dp%d" % (n_ann, n_pred), ob_clip, "real", 9000 if big else 1800,
                           dict(n_ann=n_ann, n_pred=n_pred), ("thorough",) if big else q, twins=tw, twin_timeout=600))
+    for (n_ann, n_pred) in ((1, 1), (0, 1), (2, 1)):
+        obs.append(Ob("full-pipeline-a%dp%d" % (n_ann, n_pred), ob_clip, "real", 1800,
+                      dict(n_ann=n_ann, n_pred=n_pred, stub_run_metrics=False), q if n_ann < 2 else ("thorough",),
+                      twins=("unpaired",), twin_timeout=600))
     obs.append(Ob("evaluated-clips", ob_clips, "real", 600, {}, q, twins=("raised",), twin_timeout=300))
     return obs
 
